@@ -57,6 +57,10 @@ impl Outcome {
 
 pub trait Check: Sync {
     fn id(&self) -> &'static str;
+    /// does the property judged by this check bound the memory a scenario may use? (C03 only)
+    fn judges_memory_budget(&self) -> bool {
+        false
+    }
     fn level(&self) -> &'static str;
     fn rule(&self) -> String;
     fn assumptions(&self) -> Vec<String>;
@@ -206,6 +210,11 @@ pub fn exec_guarded(check: &dyn Check, sc: &Value) -> Outcome {
     o.counters.insert("mem_peak_max".into(), mem.peak_above_base as u64);
     if mem.largest > MEM_BUDGET || mem.peak_above_base > MEM_BUDGET {
         let what = sc.get("label").and_then(|v| v.as_str()).unwrap_or("?").to_string();
+        if !check.judges_memory_budget() {
+            // "memory in proportion to the frame" is part of C03's statement only; elsewhere it is counted, not judged
+            o.count("scenarios_over_memory_budget_not_judged", 1);
+            return o;
+        }
         o.violate("memory_budget", format!("alloc:{}", what), format!("largest single request {} bytes, peak {} bytes above baseline while executing one scenario (budget {})", mem.largest, mem.peak_above_base, MEM_BUDGET));
     }
     o
@@ -518,13 +527,36 @@ pub fn exec_in_child(id: &str, sc: &Value) -> Vec<Violation> {
     let p = dir.join(format!("one-{}-{}.json", std::process::id(), crate::rng::fnv1a(sc.to_string().as_bytes())));
     std::fs::write(&p, sc.to_string()).unwrap();
     let exe = std::env::current_exe().unwrap();
-    let out = Command::new(exe).args(["exec-one", id, &p.display().to_string()]).stdin(Stdio::null()).stderr(Stdio::null()).output();
+    // the child is watched like a worker: CPU time without finishing, not wall time, decides that it hangs
+    let limit_s = env_u64("VERIF_CHILD_WATCHDOG_S", 8);
+    let outp = dir.join(format!("one-{}-{}.out", std::process::id(), crate::rng::fnv1a(sc.to_string().as_bytes())));
+    let out = (|| -> std::io::Result<std::process::Output> {
+        let f = std::fs::File::create(&outp)?;
+        let mut child = Command::new(exe).args(["exec-one", id, &p.display().to_string()]).stdin(Stdio::null()).stderr(Stdio::null()).stdout(f).spawn()?;
+        let started = Instant::now();
+        loop {
+            if let Some(status) = child.try_wait()? {
+                let stdout = std::fs::read(&outp).unwrap_or_default();
+                return Ok(std::process::Output { status, stdout, stderr: Vec::new() });
+            }
+            if started.elapsed() > Duration::from_secs(limit_s) && cpu_ticks(child.id()) > limit_s * 100 {
+                let _ = child.kill();
+                let status = child.wait()?;
+                return Ok(std::process::Output { status, stdout: b"HUNG\n".to_vec(), stderr: Vec::new() });
+            }
+            std::thread::sleep(Duration::from_millis(if started.elapsed() < Duration::from_millis(200) { 2 } else { 25 }));
+        }
+    })();
     let _ = std::fs::remove_file(&p);
+    let _ = std::fs::remove_file(&outp);
     match out {
         Ok(o) => {
             let txt = String::from_utf8_lossy(&o.stdout).to_string();
             if let Some(l) = txt.lines().find(|l| l.starts_with("OUTCOME ")) {
                 serde_json::from_str(&l[8..]).unwrap_or_default()
+            } else if txt.starts_with("HUNG") {
+                let label = sc.get("label").and_then(|v| v.as_str()).unwrap_or("?").to_string();
+                vec![Violation { oracle: "bounded_liveness".into(), sig: format!("hang:{}", label), detail: format!("the scenario burned more than {} s of CPU time in a fresh process without finishing; killed", limit_s) }]
             } else {
                 use std::os::unix::process::ExitStatusExt;
                 let label = sc.get("label").and_then(|v| v.as_str()).unwrap_or("?").to_string();
@@ -611,6 +643,7 @@ pub fn run_check(check: &dyn Check, tier: Tier) -> i32 {
     // violations whose signature embeds the scenario label (process deaths, allocation budget) are
     // minimised first, so that the signature names the minimal scenario
     let mut pre = 0;
+    let mut pre_hang = 0;
     let mut minimal: Vec<Value> = Vec::new();
     for f in sum.found.iter_mut() {
         if f.violations.len() == 1 && label_class(&f.violations[0].sig).is_some() {
@@ -618,6 +651,11 @@ pub fn run_check(check: &dyn Check, tier: Tier) -> i32 {
             // always in a child process: these scenarios can kill the process that executes them
             let in_child = true;
             let p = label_class(&sig).unwrap();
+            let hang = p == "hang:";
+            if hang && pre_hang >= 3 {
+                // every execution of a hanging scenario costs a watchdog interval: the first few are minimised, the rest reported as found
+                continue;
+            }
             // shortcut: does an already minimised scenario explain this one?
             let mut explained = false;
             for m in &minimal {
@@ -635,7 +673,11 @@ pub fn run_check(check: &dyn Check, tier: Tier) -> i32 {
                 continue;
             }
             pre += 1;
-            let (min, _steps) = shrink(check, f.scenario.clone(), &sig, in_child, 60);
+            if hang {
+                pre_hang += 1;
+            }
+            // every candidate that still hangs costs a watchdog interval
+            let (min, _steps) = shrink(check, f.scenario.clone(), &sig, in_child, if hang { 8 } else { 60 });
             minimal.push(min.clone());
             let vs = if in_child { exec_in_child(id, &min) } else { exec_guarded(check, &min).violations };
             if let Some(v) = vs.into_iter().find(|v| v.sig.starts_with(p)) {
@@ -671,14 +713,19 @@ pub fn run_check(check: &dyn Check, tier: Tier) -> i32 {
     }
     let max_report = env_u64("VERIF_MAX_REPORT", 40) as usize;
     let mut replays = Vec::new();
+    let mut hang_reports = 0;
     for sig in new_sigs.iter() {
         let occ = &by_sig[sig];
         let (fi, vi) = occ[0];
         let f = &sum.found[fi];
         let v = &f.violations[vi];
-        if replays.len() < max_report {
+        let hang = sig.starts_with("hang:");
+        if replays.len() < max_report && !(hang && hang_reports >= 4) {
+            if hang {
+                hang_reports += 1;
+            }
             let in_child = v.oracle == "no_abort" || v.oracle == "bounded_liveness" || v.oracle == "memory_budget" || label_class(sig).is_some();
-            let (min, steps) = shrink(check, f.scenario.clone(), sig, in_child, if in_child { 40 } else { 400 });
+            let (min, steps) = shrink(check, f.scenario.clone(), sig, in_child, if sig.starts_with("hang:") { 4 } else if in_child { 40 } else { 400 });
             let p = write_replay(id, seed, f, v, &min, steps);
             println!("VIOLATION property={} replay={}", id, p.display());
             println!("  oracle={} sig={} occurrences={} first_run={} detail={}", v.oracle, sig, occ.len(), f.index, v.detail.chars().take(300).collect::<String>());
